@@ -1,10 +1,10 @@
 SPECIFICATION Spec
 CONSTANTS
-  Dims = {4}
-  MaxBins = 3
-  BinChoices = {1, 2, 3}
+  Dims = {1, 2}
+  MaxBins = 12
+  BinChoices = {1, 2, 4, 5, 7, 10, 12}
   Scales = {0}
-  Bounds <- DBounds
+  Bounds <- WBounds
 INVARIANT Exact
 INVARIANT Representable
 INVARIANT CountIsProduct
